@@ -19,6 +19,10 @@ def MatFits (len off m n ld : Int) : Prop := 0 ≤ off ∧ (0 < m → 0 < n → 
 /-- `n` contiguous elements starting at `off` lie inside a buffer of `len` elements -/
 def SegFits (len off n : Int) : Prop := 0 ≤ off ∧ (0 < n → off + n ≤ len)
 
+instance (len off n inc : Int) : Decidable (VecFits len off n inc) := by unfold VecFits; infer_instance
+instance (len off m n ld : Int) : Decidable (MatFits len off m n ld) := by unfold MatFits; infer_instance
+instance (len off n : Int) : Decidable (SegFits len off n) := by unfold SegFits; infer_instance
+
 theorem iabs_cases (a : Int) : (a < 0 ∧ iabs a = -a) ∨ (0 ≤ a ∧ iabs a = a) := by
   unfold iabs; split <;> omega
 
